@@ -186,8 +186,15 @@ def model_check(name, consts, invariants=(), properties=(), spec="Spec", kf=None
         t0 = time.time()
         rc, out = run_tlc(d, workers=workers, timeout=timeout)
         gen, dist, err = tlc_stats(out)
-        log("[tlc] %s: rc=%s generated=%s distinct=%s %.1fs %s" % (name, rc, gen, dist, time.time() - t0, err or ""))
-        res = dict(name=name, rc=rc, transitions=gen or 0, states=dist or 0, error=err, consts=consts, wall=time.time() - t0)
+        partial = False
+        if rc == -9 and not err:
+            # stopped by the time budget: what TLC had explored (breadth first) by its last progress report
+            for line in open(out, errors="replace"):
+                m = re.match(r"Progress\((\d+)\) at .*?: ([\d,]+) states generated.*? ([\d,]+) distinct states found", line)
+                if m:
+                    gen, dist, partial = int(m.group(2).replace(",", "")), int(m.group(3).replace(",", "")), True
+        log("[tlc] %s: rc=%s generated=%s distinct=%s %.1fs %s%s" % (name, rc, gen, dist, time.time() - t0, err or "", " (time budget reached)" if partial else ""))
+        res = dict(name=name, rc=rc, transitions=gen or 0, states=dist or 0, error=err, consts=consts, wall=time.time() - t0, partial=partial)
         if err or rc != 0:
             res["tail"] = "".join(open(out, errors="replace").readlines()[-60:])
             if keep:
